@@ -23,7 +23,7 @@ RULE = ('output specs: port trees to depth 2 (thorough 3) over names {a, ab, n, 
 RULE += ('; also: list outputs mutated after acceptance, namespace validators objecting to the empty mapping, identity of the objects the future reports')
 ASSUMPTIONS = ['a fresh Process class per case (emitting into a dynamic namespace adds namespaces to the class spec)',
                'reference model written from the statement; namespace creation by earlier emissions is tracked by the model']
-REQUIRED = ['raising_validator_at_finish', 'emission_from_exit_hook', 'emissions_from_a_notification', 'own_rule_two_levels_down', 'emissions', 'accepted', 'rejected', 'rejected_valueerror', 'dynamic_accepted', 'nested_paths', 'unchanged_checks', 'listener_checks',
+REQUIRED = ['stop_commands_with_computed_flags', 'raising_validator_at_finish', 'emission_from_exit_hook', 'emissions_from_a_notification', 'own_rule_two_levels_down', 'emissions', 'accepted', 'rejected', 'rejected_valueerror', 'dynamic_accepted', 'nested_paths', 'unchanged_checks', 'listener_checks',
             'success/true', 'success/false_by_outputs', 'dict_values', 'identity_checks', 'late_emissions', 'other_separator']
 BOUNDS = {'quick': '300 specs x 12 emission sequences', 'thorough': '3000 specs x 25 sequences'}
 NAMES = ['a', 'ab', 'n', 'x']
@@ -123,7 +123,7 @@ def gen_cases(tier, seed):
         spec = rand_out_ns(rng, depth, top=True)
         for _ in range(nseq):
             # (every fifth spec addresses its nested ports with another separator than '.')
-            yield {'spec': spec, 'emissions': rand_emissions(rng, spec), 'ret': rng.choice([None, 9, 'r', ['unsucc', 2]]), 'slash': s % 5 == 4,
+            yield {'spec': spec, 'emissions': rand_emissions(rng, spec), 'ret': rng.choice([None, 9, 'r', ['unsucc', 2], ['stop', 'r', 1], ['stop', 4, 0]]), 'slash': s % 5 == 4,
                    'exit_emission': s % 3 == 1}
 
 
@@ -178,6 +178,9 @@ class Emitter(plumpy.Process):
             self.held_back = [emissions.pop()]
         self._emit(emissions)
         ret = self.ret
+        if isinstance(ret, list) and ret[0] == 'stop':
+            # an explicit stop command whose flag is a computed value (a count, a scalar of some numeric library): true or false as it is
+            return plumpy.Stop(ret[1], ret[2])
         if isinstance(ret, list):
             return plumpy.UnsuccessfulResult(ret[1])
         return ret
@@ -446,7 +449,8 @@ def run_case(case):
         if outputs != c11.plain(exp_outputs):
             viol.append(V('outputs-differ', 'outputs-differ', 'outputs %r, expected %r (spec %s, emissions %r)' % (outputs, exp_outputs, shape, case['emissions'])))
         ret = case['ret']
-        returned_ok = not isinstance(ret, list)
+        returned_ok = bool(ret[2]) if isinstance(ret, list) and ret[0] == 'stop' else not isinstance(ret, list)
+        obs['stop_commands_with_computed_flags'] = int(isinstance(ret, list) and ret[0] == 'stop')
         valid = valid_at_finish
         exp_success = returned_ok and valid
         exp_result = ret[1] if isinstance(ret, list) else ret
